@@ -383,7 +383,6 @@ fn agreement(t: &Type, a: &Value, b: &Value, limit: u64) -> (u64, u64) {
     }
 }
 
-#[allow(dead_code)]
 fn flat_bytes(v: &Value) -> Vec<u8> {
     match as_bytes(v) {
         Some(b) => b,
@@ -598,6 +597,58 @@ pub fn prng_checks(seed: u64, draws: usize, counters: &mut BTreeMap<String, u64>
         let z = (observed - mean) / var.sqrt();
         if z.abs() > 13.0 {
             return Some(("permutation-bias".into(), format!("PermutationFromPRF(_, {}): {} of the swap indices j_i (i >= 65536) are below 65536, expected {:.0} +- {:.0} (z = {:.1}) over {} permutations", n, observed, mean, var.sqrt(), z, perms)));
+        }
+    }
+    // outputs for different counters (or keys) never share a 16-byte block at the same offset, whatever the
+    // output size (the internal buffer grows 64 -> 128 -> 256 -> 512 bytes while a large value is produced)
+    {
+        let ctxb = create_context().ok()?;
+        let gb = ctxb.create_graph().ok()?;
+        let kin = gb.input(array_type(vec![128], BIT)).ok()?;
+        let big_types = vec![
+            array_type(vec![64], UINT8),
+            array_type(vec![128], UINT8),
+            array_type(vec![192], UINT8),
+            array_type(vec![512], UINT8),
+            array_type(vec![2048], UINT8),
+            array_type(vec![40], UINT64),
+            tuple_type(vec![array_type(vec![100], UINT8), array_type(vec![50], UINT64), array_type(vec![300], UINT8)]),
+            vector_type(9, array_type(vec![64], UINT8)),
+        ];
+        let mut evb = SimpleEvaluator::new(Some(seed_from_u64(rng.next_u64()))).ok()?;
+        for t in &big_types {
+            let ivs = [0u64, 1, 2, 77, u64::MAX];
+            let nodes: Vec<Node> = ivs.iter().filter_map(|iv| kin.prf(*iv, t.clone()).ok()).collect();
+            for _ in 0..3 {
+                let keys = [Value::from_bytes(rng.bytes(16)), Value::from_bytes(rng.bytes(16))];
+                let mut outs: Vec<Vec<u8>> = vec![];
+                for key in &keys {
+                    for nd in &nodes {
+                        match guarded(|| evb.evaluate_node(nd.clone(), vec![key.clone()])) {
+                            Ok(Ok(v)) => outs.push(flat_bytes(&v)),
+                            Ok(Err(e)) => return Some(("prf-error".into(), es(e))),
+                            Err(pn) => return Some(("panic".into(), pn)),
+                        }
+                    }
+                }
+                for a in 0..outs.len() {
+                    for b in a + 1..outs.len() {
+                        let n = outs[a].len().min(outs[b].len()) / 16;
+                        for blk in 0..n {
+                            if outs[a][blk * 16..blk * 16 + 16] == outs[b][blk * 16..blk * 16 + 16] {
+                                return Some((
+                                    "related-outputs".into(),
+                                    format!(
+                                        "PRF outputs of type {} for two different (key, counter) pairs share the 16-byte block at offset {} (pairs #{} and #{} of keys x counters {:?})",
+                                        crate::dsl::type_str(t), blk * 16, a, b, ivs
+                                    ),
+                                ));
+                            }
+                        }
+                        *counters.entry("prng:block-comparisons".into()).or_insert(0) += n as u64;
+                    }
+                }
+            }
         }
     }
     // Random / RandomPermutation nodes through an evaluator
